@@ -79,6 +79,11 @@ pub fn show_id(raw: u32, ctx: &str, reg: &str) -> i64 {
   if !elem::known(raw) {
     tp!("?{}:0", raw);
     unsafe { PENDING.push(format!("garbage {} reg={} raw={}", ctx, reg, raw)) };
+    if raw == 0xDDDD_DDDD {
+      // the fill pattern of a released block (the checking allocator never resizes in place and overwrites what it
+      // retires): the element was copied out of storage that had already been given back
+      unsafe { PENDING.push(format!("!freed-bytes {} reg={} holds the fill pattern of a released block", ctx, reg)) };
+    }
     return 0;
   }
   tp!("{}:{}", raw, elem::val_of(raw));
@@ -93,7 +98,12 @@ pub fn show_id(raw: u32, ctx: &str, reg: &str) -> i64 {
 pub static mut PENDING: Vec<String> = Vec::new();
 pub fn flush_pending() {
   for s in unsafe { PENDING.drain(..) } {
-    elem::ledger(format_args!("{}", s));
+    if let Some(rest) = s.strip_prefix('!') {
+      unsafe { alloc::ORACLE_HITS += 1 };
+      tl!("O alloc {}", rest);
+    } else {
+      elem::ledger(format_args!("{}", s));
+    }
   }
 }
 
@@ -211,6 +221,7 @@ pub fn run_case(c: &Case) {
     "b1" => crate::interp_ops::run::<B1>(c),
     "w4" => crate::interp_ops::run::<W4>(c),
     "p4" => crate::interp_ops::run::<P4>(c),
+    "p1" => crate::interp_ops::run::<P1>(c),
     "s16" => crate::interp_ops::run::<S16>(c),
     "a32" => crate::interp_ops::run::<A32>(c),
     "a16" => crate::interp_ops::run::<A16>(c),
